@@ -3,7 +3,7 @@ use crate::diff_parser::LineChange;
 use crate::language_parsers::LanguageParser;
 use anyhow::{Context, anyhow};
 use globset::GlobSet;
-use ignore::Walk;
+use ignore::WalkBuilder;
 use serde_repr::Serialize_repr;
 use std::cmp::Ordering;
 use std::collections::HashMap;
@@ -474,7 +474,12 @@ impl FileSystem for FileSystemImpl {
     fn walk(&self) -> impl Iterator<Item = anyhow::Result<PathBuf>> {
         // Clone root_path for the closure.
         let root_path = self.root_path.clone();
-        Walk::new(&self.root_path).filter_map(move |entry| match entry {
+        // Global gitignore patterns (core.excludesFile) are relative to the repository root, like
+        // every other ignore file, not to the directory blockwatch happens to be started in.
+        let walk = WalkBuilder::new(&self.root_path)
+            .current_dir(&self.root_path)
+            .build();
+        walk.filter_map(move |entry| match entry {
             Ok(entry) => {
                 let path = entry.path();
                 if path.is_dir() {
